@@ -386,14 +386,14 @@ def run(ctx):
     diskprop.tlc_check(ctx, "Vhdx", "VhdxDiff_small.cfg", min_states=200)
 
 
-def session(top, fresh, size_b, align, attr, depth):
+def session(top, fresh, size_b, align, attr, depth, sizes=None):
     """Recorders for the opened stream (obj 1) and for the stream objects of its ancestors (obj 2..), sharing one event list."""
     events, recs = [], []
     o, f = top, fresh
     for k in range(1, depth + 1):
         if o is None:
             break
-        recs.append(record.Recorder(o, size_b, probe=f.readoffset, align=align, events=events, obj=k))
+        recs.append(record.Recorder(o, sizes[k - 1] if sizes else size_b, probe=f.readoffset, align=align, events=events, obj=k))
         o, f = getattr(o, attr, None), getattr(f, attr, None)
     return events, recs
 
@@ -407,7 +407,7 @@ def interleaved_ops(recs, rng, size_b, nops, **kw):
     while left > 0:
         burst = min(left, rng.randrange(1, 6))
         k = 0 if rng.random() < 0.6 else rng.randrange(len(recs))
-        record.random_ops(recs[k], rng, size_b, burst, absolute=(k > 0), **kw)
+        record.random_ops(recs[k], rng, recs[k].sizeB, burst, absolute=(k > 0), **kw)
         left -= burst
 
 
@@ -546,11 +546,15 @@ def trace_qcow2_chain(tid, rng, nops, align=None):
 
     cb = rng.choice([14, 16])
     cs = 1 << cb
-    nc = rng.randrange(2, 8)
+    nc0 = rng.randrange(2, 8)
     depth = rng.randrange(2, 5)
+    # a backing image may be shorter (reads beyond its end are zeros) or longer than the image on top of it
+    ncs = [nc0] + [max(1, nc0 + rng.choice([0, 0, 0, -1, -2, -3, 1])) for _ in range(depth - 1)]
     vfs, layers, bases = [], [], []
     for i in range(depth):
         is_base = i == depth - 1
+        nc = ncs[i]
+        back_cells = -1 if is_base else ncs[i + 1] * 32
         pos = list(range(1, nc + 2))
         rng.shuffle(pos)
         t, h, al, ze, l2 = [], [], [], [], {}
@@ -574,14 +578,14 @@ def trace_qcow2_chain(tid, rng, nops, align=None):
             hh = pos.pop() if k == "N" else 0
             t.append(k); h.append(hh); al.append(a); ze.append(z)
             l2[c] = {"t": k, "h": hh, "sub": ["A" if (a >> b) & 1 else "Z" if (z >> b) & 1 else "U" for b in range(32)]}
-        img = {"ext": True, "datafile": False, "l2n": cs // 16, "s": 32, "l1": {0: True}, "l2": l2, "back": (-1 if is_base else nc * 32), "size": nc * 32}
+        img = {"ext": True, "datafile": False, "l2n": cs // 16, "s": 32, "l1": {0: True}, "l2": l2, "back": back_cells, "size": nc * 32}
         vf, _, info = enc_qcow2.build(img, cluster_bits=cb, K=1, file_id=i)
         vfs.append(vf)
         bases.append(info["data_base"])
         layers.append({"fmt": "qcow2", "img": {"ext": True, "datafile": False, "nc": nc, "s": 32, "t": t, "h": h,
                                                "al_lo": [a & 0xFFFF for a in al], "al_hi": [a >> 16 for a in al],
                                                "ze_lo": [z & 0xFFFF for z in ze], "ze_hi": [z >> 16 for z in ze],
-                                               "back": (-1 if is_base else nc * 32)}})
+                                               "back": back_cells}})
 
     def opener():
         obj = None
@@ -590,12 +594,13 @@ def trace_qcow2_chain(tid, rng, nops, align=None):
             obj = QCow2(vf, backing_file=obj)
         return obj
 
-    size_b = nc * cs
+    size_b = ncs[0] * cs
     s, fresh = opener(), opener()
-    events, recs = session(s, fresh, size_b, align, "backing_file", depth)
+    events, recs = session(s, fresh, size_b, align, "backing_file", depth, sizes=[n_ * cs for n_ in ncs])
     interleaved_ops(recs, rng, size_b, nops, unit=cs // 32, big=min(3 * cs, 1 << 20))
     geo = {"cellB": cs // 32, "cb": 1, "stride": cs // 32, "bases": bases, "pbase": 0}
-    return {"tid": tid, "fmt": "chain", "kind": "qcow2", "chain": layers, "sizeB": size_b, "sector": 512, "geo": geo, "events": events}
+    return {"tid": tid, "fmt": "chain", "kind": "qcow2", "chain": layers, "sizeB": size_b, "sizes": [n_ * cs for n_ in ncs], "sector": 512, "geo": geo,
+            "events": events}
 
 
 def trace_vdi_chain(tid, rng, nops, align=None):
@@ -736,7 +741,25 @@ def _mk_parent_vhdx(path, fid, bs=1 << 20):
     vf.materialise(path)
 
 
-def res_vhdx(fs, work):
+VIAS = ("path", "str", "named-handle", "anon-bytesio", "anon-buffered")
+
+
+def _hand_over(path, via, keep):
+    """The child image as the caller passes it: a Path, a str, an open file (has .name), or an anonymous stream."""
+    import io
+    if via == "path":
+        return Path(path)
+    if via == "str":
+        return str(path)
+    if via == "named-handle":
+        fh = open(path, "rb")  # noqa: SIM115
+        keep.append(fh)
+        return fh
+    data = open(path, "rb").read()
+    return io.BytesIO(data) if via == "anon-bytesio" else io.BufferedReader(io.BytesIO(data))
+
+
+def res_vhdx(fs, work, via="path"):
     from dissect.hypervisor.disk.vhdx import VHDX
 
     d = tempfile.mkdtemp(prefix="res-vhdx-", dir=work)
@@ -749,8 +772,38 @@ def res_vhdx(fs, work):
            "absolute_win32_path": (d2.lstrip("/") + "/parent.vhdx").replace("/", "\\")}
     vf, _ = enc_vhdx.build([(enc_vhdx.ST_NOT_PRESENT, None)], block_size=1 << 20, sector_size=512, disk_size=1 << 20, has_parent=True, locator=loc, file_id=9)
     vf.materialise(os.path.join(d, "child.avhdx"))
-    v = VHDX(Path(d) / "child.avhdx")
-    return _which_parent(v.read(512))
+    keep = []
+    try:
+        v = VHDX(_hand_over(os.path.join(d, "child.avhdx"), via, keep))
+        return _which_parent(v.read(512))
+    finally:
+        for fh in keep:
+            fh.close()
+
+
+def res_vmdk_embedded(fs, work, via="path"):
+    """A monolithic sparse delta whose embedded descriptor names the parent (parentCID set, parentFileNameHint)."""
+    from dissect.hypervisor.disk.vmdk import VMDK
+
+    root = tempfile.mkdtemp(prefix="res-vmdke-", dir=work)
+    cdir, sdir = os.path.join(root, "child"), os.path.join(root, "base vm")
+    os.makedirs(cdir)
+    os.makedirs(sdir)
+    for k, where in ((0, cdir), (1, sdir)):
+        if fs[k]:
+            vf, _ = enc_vmdk.build_hosted([("D", 1)], [True], capacity=8, grain=8, gtes=4, file_id=k + 1,
+                                          desc=enc_vmdk.descriptor_text(['RW 8 SPARSE "parent.vmdk"']))
+            vf.materialise(os.path.join(where, "parent.vmdk"))
+    vf, _ = enc_vmdk.build_hosted([("U", 0)], [True], capacity=8, grain=8, gtes=4, file_id=9,
+                                  desc=enc_vmdk.descriptor_text(['RW 8 SPARSE "delta.vmdk"'], parent_cid="1234abcd", parent_hint="C:\\vms\\base vm\\parent.vmdk"))
+    vf.materialise(os.path.join(cdir, "delta.vmdk"))
+    keep = []
+    try:
+        v = VMDK(_hand_over(os.path.join(cdir, "delta.vmdk"), via, keep))
+        return _which_parent(v.read(512))
+    finally:
+        for fh in keep:
+            fh.close()
 
 
 def res_vmdk(fs, work):
@@ -841,5 +894,21 @@ def resolution(ctx, thorough):
                 if got != want:
                     ctx.violation({"format": fmt, "fail": "resolution", "realisation": "resolution"},
                                   {"format": fmt, "fs": f, "optOut": st["optOut"], "want": want, "got": got})
+            # the same configurations with the child handed over in every way a caller can: without a location (anonymous
+            # stream) no candidate exists, so the open must fail; with one the first existing candidate is used
+            if not st["optOut"]:
+                for fmt, fn in (("vhdx", res_vhdx), ("vmdk-embedded", res_vmdk_embedded)):
+                    for via in VIAS:
+                        f = fs[:2]
+                        first = next((k + 1 for k, x in enumerate(f) if x), 0)
+                        want = "rejected" if (first == 0 or via.startswith("anon")) else first
+                        ctx.case(key=("res-via", fmt, tuple(f), via), nontrivial=True)
+                        try:
+                            got = fn(f, work, via)
+                        except Exception:  # noqa: BLE001
+                            got = "rejected"
+                        if got != want:
+                            ctx.violation({"format": fmt, "fail": "resolution", "realisation": "resolution", "via": via},
+                                          {"format": fmt, "fs": f, "via": via, "want": want, "got": got})
     finally:
         shutil.rmtree(work, ignore_errors=True)
